@@ -163,43 +163,7 @@ func checkC18(c *Ctx) {
 		}
 	}
 
-	// R18.3 ---------------------------------------------------------------
-	c.Rule("R18.3", "the shared directory is a fresh MkdirTemp per command; nothing under os.TempDir() has a fixed name", 3)
-	nStores := 0
-	w.forEachInstr(func(fn *ssa.Function, in ssa.Instruction) {
-		st, ok := in.(*ssa.Store)
-		if !ok {
-			return
-		}
-		g, ok := st.Addr.(*ssa.Global)
-		if !ok || g.Name() != "sharedTempDir" {
-			return
-		}
-		nStores++
-		sl := w.BackSlice(st.Val, sliceOpt{Depth: 2, IntoCallees: true})
-		name := w.FuncName(fn)
-		switch {
-		case strings.HasPrefix(name, "init"):
-			key, _ := "", false
-			for _, cv := range sl.Calls["os.Getenv"] {
-				key, _ = constString(cv.(*ssa.Call).Call.Args[0])
-			}
-			c.Check(key == "GARBLE_SHARED", "R18.3", "sharedTempDir initialiser", w.Pos(st.Pos()), "inherited from the top-level garble process through GARBLE_SHARED", "sharedTempDir is initialised from something other than GARBLE_SHARED")
-		default:
-			c.Check(sl.HasCall("os.MkdirTemp") && sl.HasCall("mvdan.cc/garble.saveSharedCache"), "R18.3", "sharedTempDir assigned in "+name, w.Pos(st.Pos()),
-				"a directory created by os.MkdirTemp for this command", "sharedTempDir is set to something other than a fresh os.MkdirTemp directory: leftovers of an interrupted run could be read")
-		}
-	})
-	if nStores == 0 {
-		c.Bad("R18.3", "sharedTempDir", "", "no assignment of sharedTempDir found")
-	}
-	for _, e := range fsEffects(w) {
-		for _, r := range e.Roots {
-			if r == rootDefaultTmp {
-				c.Check(e.Kind == "mktemp", "R18.3", e.key(w)+" under os.TempDir()", w.Pos(e.Site.Instr.Pos()), "unique name", "a fixed name under os.TempDir() survives an interrupted run and is found by the next one")
-			}
-		}
-	}
+	ruleFreshSharedDir(c)
 
 	// R18.4 ---------------------------------------------------------------
 	c.Rule("R18.4", "writes below the cache directory are Cache.PutBytes, or the linker under its lock", 5)
@@ -262,4 +226,47 @@ func constTripLoop(header *ssa.BasicBlock) bool {
 		}
 	}
 	return false
+}
+
+// ruleFreshSharedDir is R18.3. Shared by C18 (nothing of an interrupted run is found by the
+// next one) and C17 (two concurrent invocations never meet in the same directory).
+func ruleFreshSharedDir(c *Ctx) {
+	w := c.W
+	c.Rule("R18.3", "the shared directory is a fresh MkdirTemp per command; nothing under os.TempDir() has a fixed name", 3)
+	nStores := 0
+	w.forEachInstr(func(fn *ssa.Function, in ssa.Instruction) {
+		st, ok := in.(*ssa.Store)
+		if !ok {
+			return
+		}
+		g, ok := st.Addr.(*ssa.Global)
+		if !ok || g.Name() != "sharedTempDir" {
+			return
+		}
+		nStores++
+		sl := w.BackSlice(st.Val, sliceOpt{Depth: 2, IntoCallees: true})
+		name := w.FuncName(fn)
+		switch {
+		case strings.HasPrefix(name, "init"):
+			key, _ := "", false
+			for _, cv := range sl.Calls["os.Getenv"] {
+				key, _ = constString(cv.(*ssa.Call).Call.Args[0])
+			}
+			c.Check(key == "GARBLE_SHARED", "R18.3", "sharedTempDir initialiser", w.Pos(st.Pos()), "inherited from the top-level garble process through GARBLE_SHARED", "sharedTempDir is initialised from something other than GARBLE_SHARED")
+		default:
+			c.Check(sl.HasCall("os.MkdirTemp") && sl.HasCall("mvdan.cc/garble.saveSharedCache"), "R18.3", "sharedTempDir assigned in "+name, w.Pos(st.Pos()),
+				"a directory created by os.MkdirTemp for this command", "sharedTempDir is set to something other than a fresh os.MkdirTemp directory: leftovers of an interrupted run could be read")
+		}
+	})
+	if nStores == 0 {
+		c.Bad("R18.3", "sharedTempDir", "", "no assignment of sharedTempDir found")
+	}
+	for _, e := range fsEffects(w) {
+		for _, r := range e.Roots {
+			if r == rootDefaultTmp {
+				c.Check(e.Kind == "mktemp", "R18.3", e.key(w)+" under os.TempDir()", w.Pos(e.Site.Instr.Pos()), "unique name", "a fixed name under os.TempDir() survives an interrupted run and is found by the next one")
+			}
+		}
+	}
+
 }
